@@ -40,6 +40,8 @@ def _plan_order(path, names):
         return None
     _state["listings"] += 1
     want = order.get(key)
+    if want is None:
+        want = order.get(os.path.realpath(key))  # a directory reached through a symbolic link
     present = sorted(names)
     if want is None:
         if _state["explicit"]:
@@ -151,6 +153,13 @@ def materialise(world, root):
             os.makedirs(os.path.dirname(p), exist_ok=True)
             with open(p, "w", encoding="utf-8") as fh:
                 fh.write(tree["files"][rel])
+    for tname in sorted(world.get("trees", {})):
+        base = os.path.join(root, tname)
+        for rel, target in sorted((world["trees"][tname].get("links") or {}).items()):
+            p = os.path.join(base, rel)
+            if os.path.lexists(p) or not os.path.exists(os.path.join(base, target)):
+                continue  # (a plan cut down by the minimiser may have lost the target)
+            os.symlink(os.path.relpath(os.path.join(base, target), os.path.dirname(p)), p)
     pumls = world.get("pumls", {})
     if pumls:
         pdir = os.path.join(root, "pumls")
